@@ -155,14 +155,16 @@ func (e *Eval) Bytes(v ssa.Value) ([]Item, error) {
 			}
 			return append(append([]Item(nil), base...), tail...), nil
 		case pkg == "strconv" && (name == "AppendInt" || name == "AppendUint"):
-			if b, ok := constInt(args[2]); !ok || b != 10 {
-				return nil, fmt.Errorf("strconv.%s with a base other than 10", name)
+			b, ok := constInt(args[2])
+			vb, known := baseVerb[b]
+			if !ok || !known {
+				return nil, fmt.Errorf("strconv.%s with a base that is not the constant 2, 8, 10 or 16", name)
 			}
 			base, err := e.Bytes(args[0])
 			if err != nil {
 				return nil, err
 			}
-			return append(append([]Item(nil), base...), Item{Kind: Val, Val: args[1], Verb: 'd'}), nil
+			return append(append([]Item(nil), base...), Item{Kind: Val, Val: args[1], Verb: vb}), nil
 		case pkg == "fmt" && name == "Appendf":
 			base, err := e.Bytes(args[0])
 			if err != nil {
@@ -184,16 +186,82 @@ func (e *Eval) Bytes(v ssa.Value) ([]Item, error) {
 // strings.Builder / bytes.Buffer
 
 type bufKey struct {
-	alloc *ssa.Alloc
+	alloc ssa.Value // the cell (see bufInfo.alloc)
 	blk   *ssa.BasicBlock
 }
 
+// preKey: the content a captured buffer has when the closure is entered.
+type preKey struct{ cell ssa.Value }
+
 type bufInfo struct {
-	alloc  *ssa.Alloc
+	// alloc is the cell: the *ssa.Alloc of a local strings.Builder / bytes.Buffer;
+	// the *ssa.FreeVar under which a closure sees the buffer of an enclosing
+	// function; or the *ssa.Parameter of function type through which an iterator
+	// (a function that drives a callback) hands out its elements — its "writes"
+	// are the calls of that parameter (closure.go).
+	alloc  ssa.Value
 	writes map[*ssa.BasicBlock][]ssa.Instruction // in block order
 	isW    map[ssa.Instruction]bool
+	drv    map[ssa.Instruction]*ssa.MakeClosure // write = the one call a closure that captures the buffer is handed to
 	phi    map[*ssa.BasicBlock]bool
+	kind   cellKind
 	err    error
+}
+
+type cellKind int
+
+const (
+	cellNone    cellKind = iota
+	cellBuilder          // strings.Builder / bytes.Buffer
+	cellYield            // callback parameter
+	cellText             // string variable that lives in a cell (it is captured by a closure)
+	cellList             // []string variable that lives in a cell
+)
+
+func cellKindOf(a ssa.Value) cellKind {
+	if _, ok := a.(*ssa.Parameter); ok {
+		if _, isSig := a.Type().Underlying().(*types.Signature); isSig {
+			return cellYield
+		}
+		return cellNone
+	}
+	p, ok := a.Type().Underlying().(*types.Pointer)
+	if !ok {
+		return cellNone
+	}
+	switch {
+	case isTextBuffer(p.Elem()):
+		return cellBuilder
+	case isString(p.Elem()):
+		return cellText
+	}
+	if s, ok := p.Elem().Underlying().(*types.Slice); ok && isString(s.Elem()) {
+		return cellList
+	}
+	return cellNone
+}
+
+// cellLoad: v reads a string / []string variable that lives in a cell.
+func cellLoad(v ssa.Value) (ssa.Value, cellKind) {
+	u, ok := v.(*ssa.UnOp)
+	if !ok || u.Op != token.MUL {
+		return nil, cellNone
+	}
+	switch u.X.(type) {
+	case *ssa.Alloc, *ssa.FreeVar:
+		if k := cellKindOf(u.X); k == cellText || k == cellList {
+			return u.X, k
+		}
+	}
+	return nil, cellNone
+}
+
+// origin: the block before which the cell holds nothing this code has to model.
+func (bi *bufInfo) origin() *ssa.BasicBlock {
+	if a, ok := bi.alloc.(*ssa.Alloc); ok {
+		return a.Block()
+	}
+	return bi.alloc.Parent().Blocks[0]
 }
 
 func (e *Eval) frontier(fn *ssa.Function) map[*ssa.BasicBlock][]*ssa.BasicBlock {
@@ -223,11 +291,19 @@ func (e *Eval) frontier(fn *ssa.Function) map[*ssa.BasicBlock][]*ssa.BasicBlock 
 	return df
 }
 
-func (e *Eval) bufOf(a *ssa.Alloc) *bufInfo {
+func (e *Eval) bufOf(a ssa.Value) *bufInfo {
 	if bi, ok := e.bufs[a]; ok {
 		return bi
 	}
-	bi := &bufInfo{alloc: a, writes: map[*ssa.BasicBlock][]ssa.Instruction{}, isW: map[ssa.Instruction]bool{}, phi: map[*ssa.BasicBlock]bool{}}
+	bi := &bufInfo{alloc: a, writes: map[*ssa.BasicBlock][]ssa.Instruction{}, isW: map[ssa.Instruction]bool{},
+		drv: map[ssa.Instruction]*ssa.MakeClosure{}, phi: map[*ssa.BasicBlock]bool{}}
+	_, isYield := a.(*ssa.Parameter)
+	bi.kind = cellKindOf(a)
+	if bi.kind == cellNone {
+		bi.err = fmt.Errorf("a variable of type %s is not a text buffer", a.Type())
+		return bi
+	}
+	isVar := bi.kind == cellText || bi.kind == cellList
 	e.bufs[a] = bi
 	if a.Referrers() == nil {
 		return bi
@@ -241,12 +317,37 @@ func (e *Eval) bufOf(a *ssa.Alloc) *bufInfo {
 		switch x := r.(type) {
 		case *ssa.DebugRef:
 		case *ssa.Store:
+			if isVar {
+				// a string / []string variable kept in a cell: every assignment replaces its content
+				if x.Addr == ssa.Value(a) {
+					bi.isW[x] = true
+				} else {
+					fail("the variable's address is stored")
+				}
+				continue
+			}
 			// `sb := strings.Builder{}`: a store of the zero value into the fresh cell
 			if k, ok := x.Val.(*ssa.Const); ok && k.Value == nil && x.Addr == ssa.Value(a) {
 				continue
 			}
 			fail("the buffer is overwritten as a whole")
+		case *ssa.UnOp:
+			if !isVar || x.Op != token.MUL {
+				fail("the buffer's address is used by %T", r)
+			}
 		case *ssa.Call:
+			if isYield {
+				if x.Common().Value == a {
+					bi.isW[x] = true
+				} else {
+					fail("the callback is handed on to %s", x.Common().Value.Name())
+				}
+				continue
+			}
+			if isVar {
+				fail("the variable's address is passed to %s", x.Common().Value.Name())
+				continue
+			}
 			al, name := bufferMethod(x.Common())
 			if al != a {
 				fail("the buffer is passed to %s", x.Common().Value.Name())
@@ -277,6 +378,29 @@ func (e *Eval) bufOf(a *ssa.Alloc) *bufInfo {
 					fail("the buffer escapes as an interface value")
 				}
 			}
+		case *ssa.MakeClosure:
+			// a closure that captures the buffer and is handed straight to ONE call (the
+			// body of a range-over-func loop, a callback): that call is a write whose
+			// text is worked out in closure.go
+			var use *ssa.Call
+			n := 0
+			if x.Referrers() != nil {
+				for _, rr := range *x.Referrers() {
+					if _, isDbg := rr.(*ssa.DebugRef); isDbg {
+						continue
+					}
+					n++
+					if c, ok := rr.(*ssa.Call); ok && c.Common().Value != ssa.Value(x) {
+						use = c
+					}
+				}
+			}
+			if isYield || n != 1 || use == nil {
+				fail("the buffer is captured by a closure that is not handed straight to one call")
+				continue
+			}
+			bi.isW[use] = true
+			bi.drv[use] = x
 		default:
 			fail("the buffer's address is used by %T", r)
 		}
@@ -288,6 +412,9 @@ func (e *Eval) bufOf(a *ssa.Alloc) *bufInfo {
 				bi.writes[b] = append(bi.writes[b], in)
 			}
 		}
+	}
+	if isYield {
+		e.markDead(bi)
 	}
 	// φ placement: iterated dominance frontier of the writing blocks
 	df := e.frontier(a.Parent())
@@ -309,9 +436,15 @@ func (e *Eval) bufOf(a *ssa.Alloc) *bufInfo {
 }
 
 // written: what one write instruction adds.
-func (e *Eval) written(in ssa.Instruction) ([]Item, error) {
+func (e *Eval) written(bi *bufInfo, in ssa.Instruction) ([]Item, error) {
 	call := in.(*ssa.Call)
 	cc := call.Common()
+	if mc := bi.drv[in]; mc != nil {
+		return e.driven(bi, call, mc)
+	}
+	if _, isYield := bi.alloc.(*ssa.Parameter); isYield {
+		return []Item{{Kind: Emit, Args: cc.Args}}, nil
+	}
 	if _, name := bufferMethod(cc); name != "" {
 		switch name {
 		case "WriteString":
@@ -330,7 +463,7 @@ func (e *Eval) written(in ssa.Instruction) ([]Item, error) {
 }
 
 // bufferAt: the content of the buffer just before instruction at.
-func (e *Eval) bufferAt(a *ssa.Alloc, at ssa.Instruction) ([]Item, error) {
+func (e *Eval) bufferAt(a ssa.Value, at ssa.Instruction) ([]Item, error) {
 	bi := e.bufOf(a)
 	if bi.err != nil {
 		return nil, bi.err
@@ -356,7 +489,22 @@ func (e *Eval) bufExit(bi *bufInfo, b *ssa.BasicBlock, upto ssa.Instruction) ([]
 			break
 		}
 		if bi.isW[in] {
-			w, err := e.written(in)
+			if st, isStore := in.(*ssa.Store); isStore {
+				// assignment to a variable cell: the new content, which may be built from the old one
+				var v []Item
+				var err error
+				if bi.kind == cellList {
+					v, err = e.listItems(st.Val)
+				} else {
+					v, err = e.String(st.Val)
+				}
+				if err != nil {
+					return nil, err
+				}
+				out = append([]Item(nil), v...)
+				continue
+			}
+			w, err := e.written(bi, in)
 			if err != nil {
 				return nil, err
 			}
@@ -367,8 +515,11 @@ func (e *Eval) bufExit(bi *bufInfo, b *ssa.BasicBlock, upto ssa.Instruction) ([]
 }
 
 func (e *Eval) bufEntry(bi *bufInfo, b *ssa.BasicBlock) ([]Item, error) {
-	ab := bi.alloc.Block()
+	ab := bi.origin()
 	if b == ab {
+		if fv, ok := bi.alloc.(*ssa.FreeVar); ok {
+			return []Item{{Kind: Self, Acc: preKey{fv}}}, nil // whatever the enclosing function wrote before the closure runs
+		}
 		return nil, nil // nothing is written before the buffer exists
 	}
 	if !ab.Dominates(b) {
@@ -398,6 +549,19 @@ func (e *Eval) count(v ssa.Value) ([]Item, error) {
 	}
 	switch x := v.(type) {
 	case *ssa.Const:
+		if b, isB := constBool(x); isB && e.flagZero != nil {
+			// a boolean flag counts up to one: its initial value is 0, the other
+			// value is "one more than before" (it is only ever compared with 0)
+			if b == *e.flagZero {
+				return nil, nil
+			}
+			if len(e.stack) == 0 {
+				return nil, fmt.Errorf("flag set outside a loop")
+			}
+			top := e.stack[len(e.stack)-1]
+			tv, _ := top.(ssa.Value)
+			return []Item{{Kind: Self, Val: tv, Acc: top}, {Kind: Tick}}, nil
+		}
 		if k, ok := constInt(x); ok && k == 0 {
 			return nil, nil
 		}
@@ -423,14 +587,24 @@ func (e *Eval) count(v ssa.Value) ([]Item, error) {
 //	( [sep]?(something was already written)  elem )*      to  join(sep; elem*)
 //
 // where the optional separator comes first in the iteration and its condition
-// is `n > 0` for a counter n that is shown to be incremented exactly where an
-// element is written (same loops, same filter), or `buffer.Len() > 0` /
-// `acc != ""` on the text itself (then the rewrite holds when no element is
-// empty, which is recorded in Item.Assume). When the idiom is present but its
-// condition is of a kind this code does not interpret (a boolean flag, …), the
-// join is returned with Assume = "?" + reason: the client must report NOT
-// DECIDED. A counter that is interpreted and does NOT count the elements
-// (evidence of a wrong separator) leaves the template unchanged.
+// is one of
+//
+//   - `n > 0` (`n >= 1`, `n != 0`, negated forms) for a counter n that is shown to
+//     be advanced exactly where an element is written — a loop-carried value
+//     with the same loops and the same filter as the text, or a variable
+//     captured by the closure that is the loop body (closure.go) which that
+//     closure increments once per call;
+//   - `!first` for a boolean flag with the same property (loop-carried, or
+//     captured and cleared once per call);
+//   - `buffer.Len() > 0` / `acc != ""` / `len(acc) > 0` on the text itself (then
+//     the rewrite holds when no element is empty, recorded in Item.Assume).
+//
+// When the idiom is present but its condition is of a kind this code does not
+// interpret, the join is returned with Assume = "?" + reason: the client must
+// report NOT DECIDED. Only a condition that IS interpreted and does not mean
+// "an element was written before" — a counter that also counts filtered-out
+// components, a flag tested the wrong way round, a counter advanced before it
+// is tested — leaves the template unchanged (evidence of a misplaced separator).
 func (e *Eval) Joinify(items []Item) []Item {
 	chain, body, ok := nested(items)
 	if !ok || len(body) < 2 || body[0].Kind != Opt || body[0].Cond == nil || len(body[0].Body) != 1 || body[0].Body[0].Kind != Lit {
@@ -455,14 +629,114 @@ func (e *Eval) Joinify(items []Item) []Item {
 	unknown := func(why string) []Item {
 		return []Item{joinOf(sep, chain, elem, "?"+why)}
 	}
-	bo, ok := cond.(*ssa.BinOp)
-	if !ok {
-		if ph, isPhi := cond.(*ssa.Phi); isPhi && isLoopHeader(ph.Block()) {
-			if b, isB := ph.Type().Underlying().(*types.Basic); isB && b.Kind() == types.Bool {
-				return unknown("the separator is written under a loop-carried boolean flag")
+	join := func(assume string) []Item { return []Item{joinOf(sep, chain, elem, assume)} }
+	isBool := func(t types.Type) bool {
+		b, isB := t.Underlying().(*types.Basic)
+		return isB && b.Kind() == types.Bool
+	}
+	// the buffer / accumulator the repetition extends
+	sameAcc := func(cell ssa.Value) bool {
+		if key, ok := inner.Acc.(bufKey); ok {
+			return e.rootCell(key.alloc) == e.rootCell(cell)
+		}
+		return false
+	}
+	// byCounter: y is tested at the head of the innermost loop; it belongs to a
+	// family of loop-carried values (one per nesting level) that starts at zero
+	// and is advanced exactly where an element is written — same loops, same
+	// filters. flag != nil: y is a boolean flag and the separator is written when
+	// it equals *flag. right: the comparison means "y > 0".
+	byCounter := func(y *ssa.Phi, flag *bool, right bool) []Item {
+		if y.Block() != inner.Loop.Header {
+			return unknown("the value that drives the separator is not carried by the innermost loop")
+		}
+		// outermost member of the counter's family
+		top := y
+		var first ssa.Value
+		for d := 0; d < len(chain)+1; d++ {
+			var init ssa.Value
+			n := 0
+			for i, pr := range top.Block().Preds {
+				if !top.Block().Dominates(pr) {
+					init = top.Edges[i]
+					n++
+				}
+			}
+			first = init
+			q, isPhi := init.(*ssa.Phi)
+			if n != 1 || !isPhi || !isLoopHeader(q.Block()) {
+				break
+			}
+			top = q
+		}
+		if flag != nil {
+			zero, isK := constBool(first)
+			if !isK {
+				return unknown("the flag that drives the separator does not start from a constant")
+			}
+			right = *flag != zero
+			e.flagZero = &zero
+			defer func() { e.flagZero = nil }()
+		}
+		saved := e.visited
+		e.visited = map[any]bool{}
+		ct, err := e.count(top)
+		fam := e.visited
+		e.visited = saved
+		if err != nil {
+			return unknown("the counter that drives the separator is not modelled: " + err.Error())
+		}
+		if !fam[any(y)] {
+			return unknown("the value that drives the separator is not part of one counter")
+		}
+		cchain, cbody, ok := nested(ct)
+		if !ok || len(cchain) != len(chain) || len(cbody) != 1 || cbody[0].Kind != Tick {
+			return items // a counter, but not one that is advanced once per element
+		}
+		for i := range chain {
+			if cchain[i].Loop != chain[i].Loop {
+				return items
+			}
+			if !sameFilter(cchain[i].Cond, chain[i].Cond) {
+				if cchain[i].Cond != nil && chain[i].Cond != nil {
+					return unknown("the counter is advanced under a test other than the one the element is written under")
+				}
+				return items // the counter also counts components that are filtered out (or the reverse)
 			}
 		}
-		return items
+		if !right {
+			return items // the separator is written while the counter / flag still has its initial value
+		}
+		return join("")
+	}
+	// a boolean first-element flag: a captured variable (the loop body is a
+	// closure) or a loop-carried value
+	if fv, ftruth := boolTest(cond, truth); isBool(fv.Type()) {
+		if q, isP := fv.(*ssa.Parameter); isP && e.bound[q] != nil {
+			fv = e.bound[q]
+		}
+		switch y := fv.(type) {
+		case *ssa.UnOp:
+			if y.Op == token.MUL {
+				use, err := e.cellStep(y)
+				if err != nil {
+					return unknown("the separator is written under a boolean variable that is not read as a first-element flag: " + err.Error())
+				}
+				if !use.isBool || use.stores == 0 || use.after || ftruth == use.zero {
+					return items // never cleared, cleared before it is tested, or tested the wrong way round
+				}
+				return join("")
+			}
+		case *ssa.Phi:
+			if isLoopHeader(y.Block()) {
+				return byCounter(y, &ftruth, false)
+			}
+			return unknown("the separator is written under a boolean that is merged from several paths")
+		}
+	}
+	bo, ok := cond.(*ssa.BinOp)
+	if !ok {
+		return unknown("the separator is written under a condition that is not a comparison")
 	}
 	// normalise to  x OP k
 	x, op := bo.X, bo.Op
@@ -478,84 +752,88 @@ func (e *Eval) Joinify(items []Item) []Item {
 		k, x = kk, bo.Y
 		op = map[token.Token]token.Token{token.LSS: token.GTR, token.GTR: token.LSS, token.LEQ: token.GEQ, token.GEQ: token.LEQ, token.EQL: token.EQL, token.NEQ: token.NEQ}[op]
 	} else {
-		return items
+		return unknown("the separator is written under a comparison of two values that are not constants")
 	}
-	// the separator is written exactly when x > 0 (x != "")
-	positive := false
-	switch {
-	case isStr:
-		positive = (op == token.NEQ && truth) || (op == token.EQL && !truth)
-	case k == 0:
-		positive = ((op == token.GTR || op == token.NEQ) && truth) || ((op == token.EQL || op == token.LEQ) && !truth)
-	case k == 1:
-		positive = (op == token.GEQ && truth) || (op == token.LSS && !truth)
+	if q, isP := x.(*ssa.Parameter); isP && e.bound[q] != nil {
+		x = e.bound[q] // parameter of a callback that was entered: what the driver passes
 	}
-	if !positive {
-		return items
+	if so, isB := x.(*ssa.BinOp); isB && !isStr && (so.Op == token.ADD || so.Op == token.SUB) {
+		// (y ± c) OP k  ⇔  y OP (k ∓ c): a counter that was advanced before the test
+		if c, okC := constInt(so.Y); okC {
+			if so.Op == token.ADD {
+				k -= c
+			} else {
+				k += c
+			}
+			x = so.X
+		}
+	}
+	// right(off): the separator is written exactly when x-off > 0 (x != "")
+	right := func(off int64) bool {
+		if isStr {
+			return (op == token.NEQ && truth) || (op == token.EQL && !truth)
+		}
+		switch k {
+		case off:
+			return ((op == token.GTR || (op == token.NEQ && off == 0)) && truth) || ((op == token.LEQ || (op == token.EQL && off == 0)) && !truth)
+		case off + 1:
+			return (op == token.GEQ && truth) || (op == token.LSS && !truth)
+		}
+		return false
 	}
 	nonEmpty := "no element is empty (the separator is written when the text so far is non-empty)"
+	onText := func(isAcc bool) []Item {
+		if !isAcc {
+			return unknown("the separator is written under a test of a text other than the one being built")
+		}
+		if !right(0) {
+			return items
+		}
+		return join(nonEmpty)
+	}
 	switch y := x.(type) {
 	case *ssa.Phi:
 		if isStr {
-			if inner.Acc == any(y) {
-				return []Item{joinOf(sep, chain, elem, nonEmpty)}
-			}
-			return items
+			return onText(inner.Acc == any(y))
 		}
-		if y.Block() != inner.Loop.Header {
-			return items
+		return byCounter(y, nil, right(0))
+	case *ssa.UnOp:
+		if y.Op != token.MUL {
+			break
 		}
-		// outermost member of the counter's family
-		top := y
-		for d := 0; d < len(chain)+1; d++ {
-			var init ssa.Value
-			n := 0
-			for i, pr := range top.Block().Preds {
-				if !top.Block().Dominates(pr) {
-					init = top.Edges[i]
-					n++
-				}
-			}
-			q, isPhi := init.(*ssa.Phi)
-			if n != 1 || !isPhi || !isLoopHeader(q.Block()) {
-				break
-			}
-			top = q
+		if isStr {
+			return onText(sameAcc(y.X))
 		}
-		saved := e.visited
-		e.visited = map[any]bool{}
-		ct, err := e.count(top)
-		fam := e.visited
-		e.visited = saved
+		use, err := e.cellStep(y)
 		if err != nil {
-			return unknown("the counter that drives the separator is not modelled: " + err.Error())
+			return unknown("the separator is written under a variable that is not read as an element counter: " + err.Error())
 		}
-		if !fam[any(y)] {
-			return items
+		if use.isBool {
+			break
 		}
-		cchain, cbody, ok := nested(ct)
-		if !ok || len(cchain) != len(chain) || len(cbody) != 1 || cbody[0].Kind != Tick {
-			return items
+		off := int64(0)
+		if use.after {
+			off = 1
 		}
-		for i := range chain {
-			if cchain[i].Loop != chain[i].Loop || !sameFilter(cchain[i].Cond, chain[i].Cond) {
-				return items
-			}
+		if use.stores == 0 || !right(off) {
+			return items // never advanced, or compared with the wrong constant for the place it is advanced at
 		}
-		return []Item{joinOf(sep, chain, elem, "")}
+		return join("")
 	case *ssa.Call:
 		cc := y.Common()
 		if al, name := bufferMethod(cc); al != nil && name == "Len" {
-			if key, ok := inner.Acc.(bufKey); ok && key.alloc == al {
-				return []Item{joinOf(sep, chain, elem, nonEmpty)}
-			}
-			return items
+			return onText(sameAcc(al))
 		}
 		if _, name := callee(cc); name == "len" && len(cc.Args) == 1 {
-			if p, ok := cc.Args[0].(*ssa.Phi); ok && inner.Acc == any(p) {
-				return []Item{joinOf(sep, chain, elem, nonEmpty)}
+			switch a := cc.Args[0].(type) {
+			case *ssa.Phi:
+				return onText(inner.Acc == any(a))
+			case *ssa.UnOp:
+				if a.Op == token.MUL {
+					return onText(sameAcc(a.X))
+				}
 			}
 		}
 	}
-	return items
+	return unknown("the separator is written under a condition on a value this code does not interpret")
 }
